@@ -570,6 +570,31 @@ func vsParsePlan(c *sim.Case) []int {
 	return out
 }
 
+
+// vsHangupOnWellFormed reports the violation "the peer closed the connection
+// inside a well-formed frame": legitimate only after an idle period as long as
+// handleConn's read deadline (a pause of about five minutes in the plan).
+func vsHangupOnWellFormed(res *sim.Result, c *sim.Case, di int, mode string, i int, f vsFrame, obs *vsObs) {
+	if !obs.writeFail {
+		return // the stream simply ended here (truncated case)
+	}
+	for _, p := range vsParsePlan(c) {
+		if p <= -290_000 {
+			return
+		}
+	}
+	res.Violate(di, "wellformed_rejected", map[string]string{"mode": mode, "form": f.kind, "how": "connection_closed"},
+		"the connection was closed while well-formed frame %d (%s, %d bytes) was being sent (parser error: %v; reply tail %s)",
+		i, vsShort(string(f.bytes)), len(f.bytes), obs.parseErr, vsShort(string(vsTail(obs.replyRaw, 60))))
+}
+
+func vsTail(b []byte, n int) []byte {
+	if len(b) > n {
+		return b[len(b)-n:]
+	}
+	return b
+}
+
 // vsChunks turns a plan into the list of writes (nil entry = pause of -ms).
 type vsChunk struct {
 	data    []byte
@@ -772,6 +797,9 @@ func vsExecC31(t *testing.T, c *sim.Case) *sim.Result {
 			break
 		}
 		lead = append(lead, f)
+		if f.kind == "inl" && len(f.bytes) > 4096 {
+			res.Probes["inline_frame_longer_than_reader_buffer"]++
+		}
 	}
 	declared, declMax = vsDeclared(stream)
 	plan := vsParsePlan(c)
@@ -880,6 +908,7 @@ func vsJudgeC31(res *sim.Result, c *sim.Case, di int, mode, declared string, all
 	if mode == "parse" {
 		for i, f := range lead {
 			if f.end > obs.sent {
+				vsHangupOnWellFormed(res, c, di, mode, i, f, obs)
 				break
 			}
 			res.Checks++
@@ -904,7 +933,8 @@ func vsJudgeC31(res *sim.Result, c *sim.Case, di int, mode, declared string, all
 	ri, ci := 0, 0
 	for i, f := range lead {
 		if f.end > obs.sent {
-			break // the server hung up first (idle deadline during a pause)
+			vsHangupOnWellFormed(res, c, di, mode, i, f, obs) // legitimate only after an idle deadline
+			break
 		}
 		wantRep, wantCall, ok := vsStubExpect(f.args)
 		if !ok {
